@@ -9,9 +9,9 @@
 #define KEY   "key-c07-secret"
 
 enum { B_HONEST = 0, B_FOREIGN_ID, B_STALE_ID, B_OTHER_HASH, B_OTHER_LEVEL, B_STATUS, B_ERROR_PDU, B_TRUNCATED, B_BAD_MAC, B_NO_MAC,
-       B_OTHER_VERSION, B_INCONSISTENT, B_EMPTY, B_NO_CHAINS, B_OTHER_KEY, B_NO_HEADER, B_GARBAGE, B_REORDERED, B_ID_HIGH32, B_ID_HIGHFF, B_LC_WRAP, B_NBEH };
+       B_OTHER_VERSION, B_INCONSISTENT, B_EMPTY, B_NO_CHAINS, B_OTHER_KEY, B_NO_HEADER, B_GARBAGE, B_REORDERED, B_ID_HIGH32, B_ID_HIGHFF, B_LC_WRAP, B_ERROR_WITH_RESPONSE, B_NBEH };
 static const char *BNAME[B_NBEH] = {"honest", "foreign-id", "stale-id", "other-hash", "other-level", "status", "error-pdu", "truncated", "bad-mac", "no-mac",
-                                    "other-version", "inconsistent", "empty", "no-chains", "other-key", "no-header", "garbage", "chains-top-first", "id-plus-2^32", "id-high-half-set", "level-correction-wraps"};
+                                    "other-version", "inconsistent", "empty", "no-chains", "other-key", "no-header", "garbage", "chains-top-first", "id-plus-2^32", "id-high-half-set", "level-correction-wraps", "error-payload-with-response"};
 static const uint64_t STATUSES[] = {0x0101, 0x0102, 0x0103, 0x0104, 0x0105, 0x0106, 0x0107, 0x0200, 0x0300, 0x0301, 0x7777,
                                    0x100000000ULL, 0x8000000000000000ULL, 0xffffffff00000000ULL, 0x100000101ULL};   /* wider than 32 bits: low half zero / a known code */
 #define NSTATUS ((int)(sizeof STATUSES / sizeof *STATUSES))
@@ -124,7 +124,10 @@ static void handler(const unsigned char *req, size_t n, vbuf *resp, void *user) 
 			S.have_view = 1;
 		}
 	}
+	/* error-payload-with-response: the authenticated PDU carries an error payload next to (sub 0: after, sub 1: in front of) the honest response */
+	if (S.behaviour == B_ERROR_WITH_RESPONSE && S.sub % 2 == 1) rp_error_payload(&payload, e.version, RP_AGGR, 0x0300, "upstream error");
 	rp_aggr_resp_payload(&payload, e.version, id, 1, S.behaviour == B_STATUS ? STATUSES[S.sub % NSTATUS] : 0, S.behaviour == B_STATUS ? "refused" : NULL, body.p, body.n);
+	if (S.behaviour == B_ERROR_WITH_RESPONSE && S.sub % 2 == 0) rp_error_payload(&payload, e.version, RP_AGGR, 0x0101, "invalid request");
 	rp_wrap_response(resp, &e, payload.p, payload.n);
 	if (S.behaviour == B_TRUNCATED) resp->n = resp->n / 2;
 	vb_free(&body); vb_free(&payload);
@@ -312,12 +315,12 @@ static void part_main(void) {
 	for (iface = 0; iface < 6; iface++) for (tr = 0; tr < 2; tr++) for (ver = 2; ver >= 1; ver--)
 	for (ai = 0; ai < 4; ai++) for (li = 0; li < 5; li++) for (shape = 0; shape < 6; shape++) for (tail = 0; tail < 3; tail++)
 	for (b = 0; b < B_NBEH; b++) {
-		int nsub = b == B_STATUS || b == B_ERROR_PDU ? NSTATUS : b == B_INCONSISTENT ? NINCONS : b == B_LC_WRAP ? 2 : 1;
+		int nsub = b == B_STATUS || b == B_ERROR_PDU ? NSTATUS : b == B_INCONSISTENT ? NINCONS : (b == B_LC_WRAP || b == B_ERROR_WITH_RESPONSE) ? 2 : 1;
 		int rt = tail == 2 ? 3 : tail;
 		if ((iface == 1 || iface == 5) && li != 0) continue;     /* createSignature / KSI_Signature_create have no level */
 		if (!VF_THOROUGH) {
 			/* quick: one shape / algorithm per behaviour, all behaviours, both transports, all interfaces */
-			if (shape != (b % 6) || ai != (b % 4 == 3 ? 1 : 0) || (li != 0 && li != 2) || rt != (b & 1 ? 3 : 1) || (ver == 1 && b > B_STALE_ID && b != B_OTHER_VERSION)) continue;
+			if (shape != (b % 6) || ai != (b % 4 == 3 ? 1 : 0) || (li != 0 && li != 2) || rt != (b & 1 ? 3 : 1) || (ver == 1 && b > B_STALE_ID && b != B_OTHER_VERSION && b != B_ERROR_WITH_RESPONSE)) continue;
 		} else {
 			/* thorough: full product over shape x tail x behaviour for SHA-256 / levels {0,2}; other algorithms and levels with shape = b%6 */
 			if ((ai != 0 || (li != 0 && li != 2)) && shape != (b % 6)) continue;
